@@ -49,7 +49,7 @@ QUICK_A = [
     "leftrec", "midrec", "ambig-binop", "ambig-concat", "ambig-concat-null", "cyclic-unit", "prop-c03",
     "hidden-left", "hidden-right", "known-c02", "nullable-chain", "two-nullables", "dangling-else", "lex-a-aa",
     "lex-a-ab-b", "paren", "rr-conflict", "palindrome", "bounded-amb", "cyclic-null", "deep-unit-cycle", "g8",
-    "lex-alt", "nullable-tails", "glr-revisit", "nullable-rhs3",
+    "lex-alt", "nullable-tails", "glr-revisit", "glr-cyclic-nested", "lalr-late-widening", "nullable-rhs3",
 ]
 
 FORESTS = {
@@ -59,6 +59,9 @@ FORESTS = {
     "catalan429": ("S: S p S | S m S | n;", "npnmnpnmnpnmnpn", 429),
     "unequal": ("S: T U; T: T T | a; U: U U U | U U | b;", "aaaabbbb", None),
     "lexamb": ("S: S T | T; T: a | aa | aaa;", "aaaaaa", None),
+    # single-alternative wrappers (unit productions, a bracketed group) around ambiguous sub-forests, in non-first position
+    "wrapped": ("S: L e R; L: T; R: T; T: T p T | x;", "xpxpxexpxpx", 4),
+    "bracketed": ("E: E p E | l E r | n;", "npnplnpnpnr", None),
 }
 
 
@@ -75,7 +78,7 @@ def cases(tier, seed):
         gs = [corpus.shape(n) for n in QUICK_A] + corpus.stratified(corpus.gf_tiny(3), 12, seed)
         for g in gs:
             out.append(_caseA(g, "LALR", 4))
-        for f in ("catalan14", "catalan42", "unequal", "lexamb"):
+        for f in ("catalan14", "catalan42", "unequal", "lexamb", "wrapped", "bracketed"):
             out.append({"name": "B:%s" % f, "params": {"kind": "B", "forest": f}, "budget_s": 900})
         for nch in (2, 3):
             out.append({"name": "C:children=%d" % nch, "params": {"kind": "C", "n": nch}, "budget_s": 300})
@@ -280,6 +283,10 @@ class _Child:
     def __init__(self, solutions):
         self.solutions = solutions
         self.possibilities = [_Leaf()]
+
+    @property
+    def ambiguity(self):  # as glr.Parent.ambiguity
+        return len(self.possibilities)
 
 
 class _Node:
